@@ -390,6 +390,26 @@ def run_match_range(prog, rep):
                     want = idx(L)
                 elif is_exact is False:
                     want = 'none'
+            # accepted alternative idiom: std::upper_bound(first, end, p) = first tick > p
+            ubs = find_calls(val, ('std::upper_bound', 'upper_bound')) or [c for k in assign for c in find_calls(k, ('std::upper_bound', 'upper_bound'))]
+            if mm == 'Greater' and ubs:
+                U = ubs[0]
+                okargs = len(U) >= 5 and U[3] == E and U[4] == P and (U[2] == B or U[2] == L)
+                u_end = A(('cmp', '==') + tuple(sorted([U, E], key=repr)))
+                u_in = A(('cmp', '<', U, E))
+                inside = (u_end is False) or (u_in is True)
+                outside = (u_end is True) or (u_in is False)
+                if not okargs:
+                    problems.append('Greater: upper_bound is not taken over [.., end) for the position: %r' % (U,))
+                elif inside:
+                    if val != idx(U):
+                        problems.append('Greater: expected the index of the first tick > position, got %r' % (val,))
+                elif outside:
+                    if not none:
+                        problems.append('Greater: no tick is greater than the position but %r is returned' % (val,))
+                else:
+                    problems.append('Greater: the upper_bound result is turned into an index without comparing it with end(): a position on the last tick gives index n (one past the axis) instead of no index')
+                continue
             if want == 'unknown':
                 problems.append('%s: result %r decided without establishing the facts it depends on (%r)' % (mm, val, sorted(assign.items(), key=repr)[-3:]))
             elif want == 'none':
